@@ -168,6 +168,23 @@ def build_variant(kind, weighted, V, labels, variant):
         for e in edges:
             add_edge(h, kind, e, V, weighted)
         h.remove_node(z)
+    elif variant == "detour-new-key":
+        # a hyperedge that is alone in its layer / time (or has a node of its own) comes and goes
+        for e in edges:
+            add_edge(h, kind, e, V, weighted)
+        z = 66 if labels == "int" else "qq"
+        first = nodes[0][0]
+        if kind == "Hypergraph":
+            x = ((first, z),)
+        elif kind == "DirectedHypergraph":
+            x = (((first,), (z,)),)
+        elif kind == "TemporalHypergraph":
+            x = ((first, z), 9)
+        else:
+            x = ((first, z), "L9")
+        h.add_edge(*x, metadata={"tmp": 1})
+        remove_edge(h, kind, x)
+        h.remove_node(z)
     elif variant == "readd":
         add_edge(h, kind, edges[0], V, weighted, weight=V("wx") if weighted else None, md={"other": 1})
         add_edge(h, kind, edges[1], V, weighted)
@@ -195,6 +212,11 @@ def build_edit(kind, weighted, V, labels, edit):
     """same content as build_plain except for exactly one element; returns (object, assumption-holds)"""
     nodes, edges, extra = contents(kind, labels)
     ok = True
+    if edit == "weightedness-only":
+        # both objects got their hypergraph metadata replaced wholesale; the weighted one may have every weight 1
+        h = build_plain(kind, not weighted, V, labels)
+        h.set_hypergraph_metadata({"name": V("hm")})
+        return h, True
     if edit == "weightedness":
         h = build_plain(kind, not weighted, V, labels)
         return h, True
@@ -259,10 +281,10 @@ def build_edit(kind, weighted, V, labels, edit):
     return h, ok
 
 
-VARIANTS = ("perm", "detour-edge", "detour-node", "readd", "late")
+VARIANTS = ("perm", "detour-edge", "detour-node", "detour-new-key", "readd", "late")
 EDITS_COMMON = ("extra-node", "extra-edge", "missing-edge", "weight", "edge-md-value", "edge-md-key", "node-md-value",
                 "node-md-extra", "hg-md-value", "weightedness", "edge-md-list-order", "node-md-nested-value",
-                "node-md-nested-list-order", "hg-md-list-order", "md-int-vs-str")
+                "node-md-nested-list-order", "hg-md-list-order", "md-int-vs-str", "weightedness-only")
 
 
 def observe(h):
@@ -302,6 +324,9 @@ def build(spec):
             else:
                 if spec["edit"] == "weight" and not weighted:
                     return None
+                if spec["edit"] == "weightedness-only":
+                    h1.set_hypergraph_metadata({"name": V("hm")})
+                    d1 = hashing.hash_hypergraph(h1)
                 h2, ok = build_edit(kind, weighted, V, labels, spec["edit"])
                 if not ok:
                     return None  # the edited value coincides with the original: no edit
@@ -378,9 +403,10 @@ def budget(tier):
 META = {
     "bounds": {
         "quick": "one 4-node, 3-hyperedge content per container type (repeated node set across times / layers, a "
-                 "singleton, isolated node, metadata at all three levels), weighted and unweighted; 5 alternative "
-                 "histories (permuted insertion and node order, hyperedge detour, node detour, remove/re-add, late "
-                 "weights/metadata) and 10-11 single-element edits each; all weights and metadata values symbolic "
+                 "singleton, isolated node, flat / list-valued / nested metadata at all three levels), weighted and "
+                 "unweighted; 6 alternative histories (permuted insertion and node order, hyperedge detour, node detour, "
+                 "detour through a fresh layer/time/node, remove/re-add, late weights/metadata) and 16-17 single-element "
+                 "edits each (incl. weightedness alone after set_hypergraph_metadata); all weights and metadata values symbolic "
                  "integers (edited value assumed different)",
         "thorough": "adds string labels",
     },
